@@ -254,12 +254,17 @@ func aggCase(r *hlib.Rng, s *hlib.Suite) {
 				}
 				return nil
 			}
+			// half of the callbacks overwrite their argument (a scratch copy, reading decision 9), the other half leave
+			// it as they got it (a buffer that is reused between groups must be rewritten completely by the library)
+			scribble := r.Bool()
 			switch kind {
 			case "int":
 				fn = func(x []int) int {
 					v := pureI(x)
 					for i := range x { // the argument is a scratch copy: overwriting it must not reach any frame
-						x[i] = -12345
+						if scribble {
+							x[i] = -12345
+						}
 					}
 					return v
 				}
@@ -267,7 +272,9 @@ func aggCase(r *hlib.Rng, s *hlib.Suite) {
 				fn = func(x []float64) float64 {
 					v := pureF(x)
 					for i := range x {
-						x[i] = -1.25
+						if scribble {
+							x[i] = -1.25
+						}
 					}
 					return v
 				}
@@ -275,7 +282,9 @@ func aggCase(r *hlib.Rng, s *hlib.Suite) {
 				fn = func(x []bool) bool {
 					v := pureB(x)
 					for i := range x {
-						x[i] = !x[i]
+						if scribble {
+							x[i] = !x[i]
+						}
 					}
 					return v
 				}
@@ -285,7 +294,9 @@ func aggCase(r *hlib.Rng, s *hlib.Suite) {
 					y := make([]*string, len(x))
 					for i, v := range x {
 						y[i] = cp(v)
-						x[i] = nil
+						if scribble {
+							x[i] = nil
+						}
 					}
 					return pureS(y)
 				}
